@@ -305,3 +305,95 @@ def run_driver(workdir, exe, driver_args=(), timeout=600):
 
 def mkscratch(tag):
     return tempfile.mkdtemp(prefix="flexverif.%s." % tag, dir=SCRATCH_ROOT)
+
+
+# ---------------------------------------------------------------- pooled jobs
+
+def _read(p):
+    try:
+        return open(p, errors="replace").read()
+    except OSError:
+        return ""
+
+
+def run_groups_job(job):
+    """Worker: build one pack and run it; on violations confirm each failing
+    group alone (unpacked) and attach the minimal spec for the replay file.
+    job keys: groups, options, defs, prologue, flex_args, api, cdefs, knobs,
+    driver_args, render_kw, san, tag, flavour."""
+    from . import build
+    flex = build.get_flex(job.get("flavour", "plain"))
+    wd = mkscratch(job.get("tag", "job"))
+    out = {"tag": job.get("tag"), "ngroups": len(job["groups"])}
+    try:
+        pack = Pack(job["groups"], job.get("options", ()), job.get("defs", ()), job.get("prologue", ""))
+        kw = dict(flex_args=job.get("flex_args", ()), api=job.get("api", "NR"), defs=job.get("cdefs", ()),
+                  knobs=job.get("knobs"), san=job.get("san", False), render_kw=job.get("render_kw"),
+                  driver_args=job.get("driver_args", ()), timeout=job.get("timeout", 900))
+        try:
+            res = run_pack(flex, pack, wd, **kw)
+        except BuildFailure as e:
+            out["build_failure"] = {"stage": e.stage, "rc": e.rc, "stderr": e.stderr[-3000:],
+                                    "spec": _read(os.path.join(wd, "s.l"))}
+            return out
+        out.update(summary=res["summary"], rc=res["rc"], hard_error=res["hard_error"], stderr=res["stderr"][-2000:],
+                   stats=res["stats"], flex_stderr=res["flex_stderr"][-2000:], wall=res["wall"])
+        if res["summary"] is None:
+            out["spec"] = _read(os.path.join(wd, "s.l"))
+            out["tables"] = _read(os.path.join(wd, "s_tables.h"))
+        viols = []
+        seen_groups = set()
+        for v in res["viols"]:
+            gi = v.get("group", 0)
+            v["label"] = job["groups"][gi].label
+            if gi in seen_groups:
+                continue
+            seen_groups.add(gi)
+            if len(seen_groups) > 6:
+                continue
+            # confirm alone
+            wd2 = os.path.join(wd, "g%d" % gi)
+            single = Pack([job["groups"][gi]], job.get("options", ()), job.get("defs", ()), job.get("prologue", ""))
+            try:
+                r2 = run_pack(flex, single, wd2, **kw)
+                v["confirmed"] = bool(r2["viols"]) or r2["summary"] is None
+                v["alone"] = r2["viols"][:2]
+            except BuildFailure as e:
+                v["confirmed"] = False
+                v["alone_build_failure"] = e.stderr[-1000:]
+            v["spec"] = _read(os.path.join(wd2, "s.l"))
+            v["tables"] = _read(os.path.join(wd2, "s_tables.h"))
+            v["cmd"] = {"flex_args": list(job.get("flex_args", ())), "api": job.get("api", "NR"),
+                        "cdefs": list(job.get("cdefs", ())), "san": job.get("san", False),
+                        "driver_args": list(job.get("driver_args", ()))}
+            viols.append(v)
+        out["viols"] = viols
+        out["nviol_groups"] = len(seen_groups)
+        return out
+    finally:
+        shutil.rmtree(wd, ignore_errors=True)
+
+
+def replay_case(flex, rdir):
+    """Re-run a saved harness case (spec.l + tables) against the current tree.
+    Returns (still_fails, text)."""
+    case = json.load(open(os.path.join(rdir, "case.json")))
+    cmd = case.get("cmd", {})
+    wd = mkscratch("replay")
+    try:
+        shutil.copy(os.path.join(rdir, "s.l"), wd)
+        shutil.copy(os.path.join(rdir, "s_tables.h"), wd)
+        api = cmd.get("api", "NR")
+        cfile = "s.cc" if api == "CXX" else "s.c"
+        rc, out, err = run_flex(flex, list(cmd.get("flex_args", [])) + ["-o", cfile, "s.l"], wd)
+        if rc != 0:
+            return True, "flex failed: " + err
+        rc, cerr = compile_scanner(wd, cfile, "s.exe", api=api, defs=cmd.get("cdefs", ()), san=cmd.get("san", False),
+                                   cxx=(api == "CXX"), flex=flex)
+        if rc != 0:
+            return True, "compile failed: " + cerr[-2000:]
+        res = run_driver(wd, "s.exe", cmd.get("driver_args", ()))
+        bad = bool(res["viols"]) or res["summary"] is None
+        return bad, json.dumps({"summary": res["summary"], "viols": res["viols"][:3], "stderr": res["stderr"][-500:]})
+    finally:
+        shutil.rmtree(wd, ignore_errors=True)
